@@ -7,6 +7,7 @@ import GoRes.Driver.Req
 import GoRes.Driver.Pool
 import GoRes.Driver.Idx
 import GoRes.Driver.Codec
+import GoRes.Driver.ReqLoad
 /-! `gores-driver <domain>`: one op line in, one line `model<TAB>spec<TAB>tag` out. -/
 open GoRes GoRes.Wire
 
@@ -43,6 +44,7 @@ def stepLine (dom : String) (st : DState) (full : String) : DState × String :=
       let (is, m, s, t) := GoRes.Driver.Idx.run st.idx args impl
       ({ st with idx := is }, m ++ "\t" ++ s ++ "\t" ++ t)
     | "codec" => let (m, s, t) := GoRes.Driver.Codec.run args; (st, m ++ "\t" ++ s ++ "\t" ++ t)
+    | "reqload" => let (m, s, t) := GoRes.Driver.ReqLoad.run args; (st, m ++ "\t" ++ s ++ "\t" ++ t)
     | "subs" => let (m, s, t) := GoRes.Driver.Subs.run args impl; (st, m ++ "\t" ++ s ++ "\t" ++ t)
     | _ => (st, "bad-domain\t-\tbad")
 
